@@ -27,6 +27,16 @@ def cases(rng, tier):
                "cat": ["numerical", "levenshtein", "absolute", None][j % 4], "mathet": j % 2 == 0, "n": 3,
                "p": 0.9, "seed": rng.randint(0, 10 ** 6), "gamma_cat": True, "gamma_k": j % 2 == 0,
                "out": ["print", "csv", "json"][j % 3], "sep": ","}
+    # "for each input file": a FIRST file with other categories precedes the file under test on the command line; nothing computed for the
+    # first (its category scale in particular) may leak into the results of the second
+    for j in range(3 if tier == "quick" else 12):
+        segs = [(float(4 * i), float(4 * i + 3)) for i in range(3)]
+        first = {f"ann{a}": [[s, e, rng.choice(["1", "40", "90"])] for (s, e) in segs] for a in range(2)}
+        spec = {f"ann{a}": [[s + rng.choice([0.0, 0.5]), e, rng.choice(labels)] for (s, e) in segs] for a in range(2)}
+        yield {"continuum": spec, "first": first, "alpha": 1.0, "beta": rng.choice([1.0, 2.0]), "delta": 1.0,
+               "cat": ["numerical", "levenshtein", "numerical"][j % 3], "mathet": True, "n": 3,
+               "p": 0.9, "seed": rng.randint(0, 10 ** 6), "gamma_cat": True, "gamma_k": False,
+               "out": ["print", "json", "csv"][j % 3], "sep": ","}
     for n, mx, cnt in ((2, 3, 6), (3, 2, 4)):
         for spec in common.grid_continua(rng, n, mx, 12, labels, allow_empty=False, count=cnt if tier == "quick" else cnt * 5):
             yield {"continuum": spec, "alpha": rng.choice([1.0, 0.5, 3.0]), "beta": rng.choice([1.0, 2.0]), "delta": rng.choice([1.0, 0.5, 2.0]),
@@ -36,9 +46,15 @@ def cases(rng, tier):
             k += 1
 
 
-def api_values(inp, path):
+def api_values(inp, path, first_path=None):
     pa = pkg()
     np.random.seed(inp["seed"])
+    if first_path is not None:
+        api_one(pa, inp, first_path)          # the command line seeds once, then treats the files in order: so does the reference
+    return api_one(pa, inp, path)
+
+
+def api_one(pa, inp, path):
     c = pa.Continuum.from_csv(path, delimiter=inp["sep"])
     cat = None
     if inp["cat"] == "numerical":
@@ -67,8 +83,16 @@ def check(inp):
             for a in sorted(inp["continuum"]):
                 for (s, e, l) in inp["continuum"][a]:
                     w.writerow([a, l, s, e])
-        want = api_values(inp, path)
-        argv = ["pygamma-agreement", path, "-a", str(inp["alpha"]), "-b", str(inp["beta"]), "-e", str(inp["delta"]), "-n", str(inp["n"]),
+        first_path = None
+        if inp.get("first"):
+            first_path = os.path.join(tmp, "first.csv")
+            with open(first_path, "w", newline="") as f:
+                w = csv.writer(f, delimiter=inp["sep"])
+                for a in sorted(inp["first"]):
+                    for (s, e, l) in inp["first"][a]:
+                        w.writerow([a, l, s, e])
+        want = api_values(inp, path, first_path)
+        argv = ["pygamma-agreement"] + ([first_path] if first_path else []) + [path, "-a", str(inp["alpha"]), "-b", str(inp["beta"]), "-e", str(inp["delta"]), "-n", str(inp["n"]),
                 "-p", str(inp["p"]), "--seed", str(inp["seed"]), "-s", inp["sep"]]
         if inp["cat"] is not None:
             argv += ["-d", inp["cat"]]
@@ -97,7 +121,10 @@ def check(inp):
             sys.argv = saved
         got = {}
         if inp["out"] == "print":
-            for line in buf.getvalue().splitlines():
+            lines = buf.getvalue().splitlines()
+            if path in lines:
+                lines = lines[len(lines) - 1 - lines[::-1].index(path):]        # the section of the file under test
+            for line in lines:
                 if line.startswith("gamma="):
                     got["gamma"] = float(line.split("=", 1)[1])
                 elif line.startswith("gamma-cat="):
@@ -110,7 +137,7 @@ def check(inp):
             got = js[path]
         else:
             rows = list(csv.reader(open(outp, newline=""), delimiter=inp["sep"]))
-            header, row = rows[0], rows[1]
+            header, row = rows[0], next((r for r in rows[1:] if r and r[0] == path), rows[1])
             for h, v in zip(header[1:], row[1:]):
                 if h == "gamma-k":
                     try:
